@@ -60,6 +60,43 @@ Fixpoint value_eqb (a b : value) {struct a} : bool :=
   | _, _ => false
   end.
 
+(* Floats are compared by bit pattern, modulo the one thing the interpreter does to a pattern on its way
+   through a Python float: unpacking a binary32 signalling NaN into a double (and packing it back) sets the
+   quiet bit. [canon_val] sets that bit in every r32 NaN of a value before two values are compared; everything
+   else is compared exactly. *)
+Definition quiet32 (u : Z) : Z :=
+  if ((u / 2 ^ 23) mod 256 =? 255) && negb (u mod 2 ^ 23 =? 0) && ((u / 2 ^ 22) mod 2 =? 0) then u + 2 ^ 22 else u.
+
+Section Canon.
+  Variable cT : ty -> value -> value.
+  Definition canon_field (f : field) (v : value) : value :=
+    match fst f, v with
+    | FPlain, _ => cT (snd f) v
+    | FOpt, VSome x => VSome (cT (snd f) x)
+    | _, VList xs => VList (map (cT (snd f)) xs)
+    | _, _ => v
+    end.
+  Fixpoint canon_fields (fs : list field) (vs : list value) : list value :=
+    match fs, vs with
+    | f :: r, v :: vr => canon_field f v :: canon_fields r vr
+    | _, _ => vs
+    end.
+  Fixpoint canon_arm (arms : list (Z * ty)) (i : nat) (x : value) : value :=
+    match arms, i with
+    | a :: _, O => cT (snd a) x
+    | _ :: r, S j => canon_arm r j x
+    | _, _ => x
+    end.
+End Canon.
+
+Fixpoint canon_val (t : ty) (v : value) {struct t} : value :=
+  match t, v with
+  | TScalar R32, VInt u => VInt (quiet32 u)
+  | TStruct fs, VStruct vs => VStruct (canon_fields canon_val fs vs)
+  | TUnion arms, VUnion i x => VUnion i (canon_arm canon_val arms i x)
+  | _, _ => v
+  end.
+
 (* outcome of a model decode, flattened: [0; consumed] / [exception code] *)
 Definition dec_flat (r : res (value * Z)) : list Z :=
   match r with Ok (_, n) => [0; n] | Err x => [exn_code x] end.
@@ -69,7 +106,7 @@ Definition dec_flat (r : res (value * Z)) : list Z :=
    result: [] when model and implementation agree on outcome, consumed length and value *)
 Definition model_decode_case (e : endian) (t : ty) (data : bytes) (obs : list Z) (obs_v : value) : list Z :=
   let r := py_decode e t data in
-  let same_value := match r with Ok (v, _) => value_eqb v obs_v | Err _ => true end in
+  let same_value := match r with Ok (v, _) => value_eqb (canon_val t v) (canon_val t obs_v) | Err _ => true end in
   if beq (dec_flat r) obs && same_value then [] else 98 :: dec_flat r.
 
 (* property oracle for round trips (C02): decoding the canonical bytes of a legal, well-typed
